@@ -113,6 +113,16 @@ Theorem C14_step_simulation : forall ws P bs sid base limit, assemble_with ws P 
 Proof. exact step_sim. Qed.
 Print Assumptions C14_step_simulation.
 
+(* a static sufficient condition for [safe]: one instruction adds at most max(1, locals of an INITSLOT of the
+   program) items and at most one frame, so a run of n steps from a state with that much room stays within
+   the limits (crude: for longer runs [safe] itself is evaluated — it is a boolean function of the Target run) *)
+Theorem C14_safe_of_bound : forall P n st,
+  footprint st + Z.of_nat n * max_locals P <= MaxStackSize ->
+  zlen (callers st) + 1 + Z.of_nat n <= MaxInvocationStackSize ->
+  safe P n st = true.
+Proof. exact safe_of_bound. Qed.
+Print Assumptions C14_safe_of_bound.
+
 (* source semantics => VM model run of the assembled compiled code *)
 Theorem C14_compile_correct_on_vm_model : forall p f vs n ws bs sid base,
   assemble_with ws (compile_program p) = Some bs -> 0 <= base ->
